@@ -24,7 +24,7 @@ CHECKS = {
              "~320 declarations and both shroud's re-rendering and the type it recorded (typemap rendering); scoped names "
              "(::X, X, inner::X inside namespaces/classes) resolve as g++ resolves them; every parenthesisation of <= 4 operands keeps its structure "
              "through print and re-parse; parse(gen_decl(parse(d))) == parse(d) over a declarator grammar; renderers leave "
-             "the node unchanged. One genuine defect found and fixed.",
+             "the node unchanged. One genuine defect found and fixed. Further units: ExprParser.expression / primary / identifier (precedence climbing against the operator table read from the source, own-contract recursion), Declaration.gen_attrs (a set attribute is rendered whatever its value).",
         design_ref="6/C09, 12",
         note="Agreement with a C++ compiler only through the bounded monitor. Sub-parsers are used through trusted "
              "contracts; ExprParser.expression precedence, declaration_specifier/declarator/pointer and the gen_decl family "
@@ -40,7 +40,7 @@ CHECKS = {
              "default arguments x explicit/defaulted suffixes is checked by a bounded run of the real generate_functions "
              "(labelled bounded, not proof) and by a file-level bounded check of the generated C and Fortran files of six "
              "libraries (no wrapper defined twice, no Fortran entity declared twice, compilers accept); they exposed one "
-             "genuine defect (fixed) and two recorded known findings.",
+             "genuine defect (fixed) and two recorded known findings. Also under contract: the numbering step of define_function_suffix (position in the overload set -> suffix). File-level monitor also reads Python method tables and Lua registries.",
         design_ref="6/C08, A.3",
         note="Not covered deductively: define_function_suffix / has_default_args / template and generic expansion (clone "
              "FunctionNodes, mutate Scopes), name templates, dump_generic_interfaces, Python/Lua method tables.",
@@ -59,7 +59,7 @@ CHECKS = {
              "loop over classes/namespaces in an emitter handles an element only under that element's own flag for the "
              "emitter's language; every read of a Python/Lua wrap flag outside the Python/Lua emitters is flag bookkeeping, "
              "the emitter gate, or the one documented struct-constructor site (non-interference table); the file lists are "
-             "per-run objects. Three genuine defects found and fixed.",
+             "per-run objects. Three genuine defects found and fixed. process_return_this keeps the Python and Lua choice of the method (unit); bounded monitor m_wrapsel now in the quick tier (every switched-on declaration present, namespace / struct / class switch-off, return_this).",
         design_ref="6/C15",
         note="Not covered: byte-identity of C/Fortran files under wrap_python struct-constructor addition; per-function "
              "flags inside wrap_function bodies. Bounded monitors m_wrapsel, m_purity.",
@@ -73,7 +73,7 @@ CHECKS = {
              "calls comment-only procedures, fills lists that only ever receive comment lines, or assigns locals used only "
              "there; a break/continue under such a test is accepted only when the whole loop is documentation-only; "
              "user-supplied doxygen texts reach the output one prefixed line at a time. One genuine defect found "
-             "and fixed. _create_splicer's independence of show_splicer_comments is proved under C12.",
+             "and fixed. _create_splicer's independence of show_splicer_comments is proved under C12. Comment text must be free of line-break hints (a literal tab / form feed or a rendering asked for them with continuation=True, also through locals). Bounded monitor m_docopts in both tiers (per-declaration options, long callbacks, libraries without functions).",
         design_ref="6/C16",
         note="Syntactic judgement; assumes comment stripping of the target languages removes exactly what it calls a comment "
              "line. Library-level literalinclude/literalinclude2 excluded by the property. Whole-run relation only monitored.",
@@ -89,7 +89,7 @@ CHECKS = {
              "directory listings, no id()/hash() flowing to output, no set iteration. Ten roots failed on the original tree; "
              "four genuine defects were repaired. A reset that exists but is reached only conditionally or after use is a "
              "failure; implicit reads of the working directory (abspath, relpath without start, ...) count as impure. Thorough "
-             "tier: bounded run-time frame check (in-process sequences of libraries vs fresh processes).",
+             "tier: bounded run-time frame check (in-process sequences of libraries vs fresh processes). Also judged: a write decided by a value read from the same root (memo pattern) is not an oblivious write; a set handed to list/tuple/join/extend; every path main_with_args probes or reads is a command-line value or os.path.join(directory, name). Bounded replay m_purity: in-process run sequences, working-directory and PYTHONHASHSEED independence.",
         design_ref="6/C07, Appendix C",
         note="Sound under the aliasing assumptions of DESIGN.md section 8 (name-based alias closure; reflective writes only "
              "at visible setattr sites). J3 roots carry the listed assumption about stale keys; debug dumps excluded. "
@@ -107,7 +107,7 @@ CHECKS = {
              "function when a class template is instantiated (scope-chain signature, own-contract recursion); every "
              "module-/class-level mutable root is reset or untouched per run, so create_wrapper after earlier runs equals a "
              "fresh command line (effect judgement). Four genuine defects found and fixed. Whole-run identity is monitored "
-             "(bounded, both tiers: two-run relations m_equiv; m_options in the thorough tier).",
+             "(bounded, both tiers: two-run relations m_equiv; m_options in the thorough tier). Further units: per-argument attrs merge (keyed by the argument's own name), create_wrapper passes its parameters through unchanged; m_equiv also relates a customisation on every instantiation to the same one on the class template, attrs vs inline attributes with fortran_generic, constructors inside blocks. Six genuine defects found and fixed in all.",
         design_ref="6/C14",
         note="Assumed contracts: util.Scope.clone/reparent/get_parent, FunctionNode.clone. Not covered: util.Scope lookup "
              "itself, per-argument attrs merge, ClassNode.clone outside the loop body, identity of whole runs (bounded "
@@ -145,7 +145,7 @@ CHECKS = {
              "and SH_TYPE tables, helper bind(C) interfaces, and agreement of the three sites that look up 'the C statement "
              "row' on the whole key domain (keys read from the source, real lookup function). Bounded (labelled): gfortran "
              "-fc-prototypes of every generated module vs the generated C header on the corpus and ~2 900 synthetic "
-             "libraries. Two genuine defects found and fixed.",
+             "libraries. Two genuine defects found and fixed. Also: parameters of function-pointer arguments get the same value defaulting (check_arg_attrs[fptr]); enumerations as shared constant tables; m_fcagree compares abstract interfaces with the function-pointer types of the C prototypes.",
         design_ref="6/C04, Appendix B, 12",
         note="Trusted: Declaration.gen_arg_as_c / bind_c as abstract strings (their agreement is not proved), set_f_module / "
              "update_f_module bodies, wformat model for constant templates, metaattrs/attrs set by generate.py. Not covered: "
@@ -163,7 +163,7 @@ CHECKS = {
              "module to the shared table (whole-view postcondition); build_arg_list_impl / build_arg_list_interface register "
              "for USE exactly the kind they name. Bounded (labelled): gfortran -fsyntax-only on every generated module of the "
              "corpus (plain, F_CFI, c/c++), gcc/g++/gfortran on ~80 user-guide declaration patterns each wrapped alone, link "
-             "closure of helper names. Six genuine defects found and fixed, one recorded as known finding.",
+             "closure of helper names. Six genuine defects found and fixed, one recorded as known finding. Also: a class argument's capsule type is defined by the module holding the interface; m_compile covers fixed-width element types behind containers, callbacks returning pointers, pre-C++11 libraries with a bare user header, namespace functions on a class of the enclosing scope. Four open known findings, one more defect fixed.",
         design_ref="6/C05, 12",
         note="Not covered: linking against a user library, Python/Lua sources, declaration order inside files. The compile "
              "runs are bounded stand-ins, never counted as proved.",
@@ -209,7 +209,7 @@ CHECKS = {
              "were repaired with fix: commits. Parser statement level (have, mustbe, decl_statement, error_msg) and a "
              "node-wiring judgement (add_declarations rejects a parent that cannot hold declarations; BlockNode's parent "
              "attributes exist for every parent class). YAML structure: bounded monitor (374 descriptions); five more "
-             "defects fixed there.",
+             "defects fixed there. RecursiveDescent.next is verified (four shapes); nine more defects of the unchanged tree were repaired in the last round (trailing text after instantiations / generic parameter lists, qualified names on typedefs, implied expressions, wrong-typed YAML values, constructors in blocks).",
         design_ref="6/C17, A.8",
         note="Trusted: pyvc, z3/cvc5, PyVal value model, trusted contracts for declast.check_dimension and "
              "generate.check_implied, 'the parser sets Declaration.typemap'. Not covered (bounded only): token-level "
@@ -226,7 +226,7 @@ CHECKS = {
              "their key, and the emission "
              "identity of a user line through write_lines/write_continue, discharged by z3/cvc5 for all inputs. The "
              "unrestricted emission identity is a recorded known finding (interior TAB / trailing '+'); it is proved under "
-             "the finding's carve-out.",
+             "the finding's carve-out. Bounded m_splicer_e2e also covers splicer_code, mixed and colliding sources and declaration-level splicers; m_splicer_emit covers empty user bodies and force. One more genuine defect fixed (splicer_code dropped blocks read from files).",
         design_ref="6/C12, A.4, A.5",
         note="Trusted: pyvc, z3/cvc5, nested-dict store as class Tree with ghost paths, split()/rstrip() vocabulary. Bounded "
              "(labelled): reader on block orders; end-to-end round trip of one unique line per block of every generated file. "
@@ -238,7 +238,7 @@ CHECKS = {
         text="Deductive: verification conditions generated from the real source text of util.WrapperMixin.write_continue "
              "and write_lines (loop invariants, ghost text emitted so far, per-part contribution spec) and discharged by "
              "z3/cvc5 for all lines, line lengths, indentations and continuation markers, no bound. Thorough tier adds a "
-             "bounded run-time contract on the real functions (labelled bounded).",
+             "bounded run-time contract on the real functions (labelled bounded). Wiring items: each emitter binds linelen / cont to the option and marker of its own language; bounded driver run with F_line_length != C_line_length (m_linelen_e2e).",
         design_ref="6/C13, A.1, A.2",
         note="Trusted: pyvc translator, z3 5.1/cvc5 1.0.3, Python string/int semantics as tabulated in DESIGN 2.1, abstract "
              "whitespace set for lstrip. Not covered: that every emitter places break hints so that Fortran lines fit 132 columns.",
